@@ -5,13 +5,15 @@ META = {
  'bounds': 'modular (assume-guarantee) proof: each parser function alone over an exact-size fully symbolic buffer of every length L <= N '
            '(N = 5 quick, 8 thorough) from an arbitrary cursor, callees under contract; by induction on call depth this covers every nesting depth '
            'for buffers up to N; char / char16_t / char32_t',
- 'outside': 'buffers longer than N; stack consumption (the 512-levels clause is a resource property of the compiled binary, not addressed); '
+ 'outside': 'buffers longer than N except the long-numeral windows (a lone 19/20/21-digit integer numeral at the 2^63/2^64 boundaries, optionally signed or followed by ./e/E and one digit, ending exactly at the end of the buffer); stack consumption (the 512-levels clause is a resource property of the compiled binary, not addressed); '
             'nesting depth >= 2^32-256 (cursor wrap); SIMD builds differ only in Memory::Copy/SetToZero (C14)',
  'assumptions': ['shape-recording Value/Array/HArray/String stand-ins (no heap) for the cursor harnesses; every String construction reads an arbitrary unit of its slice',
                  'FixedStream stand-in for the scratch stream', 'big-integer power-of-ten kernels havoc their output word in the number-scanner query (they never touch the buffer)'],
 }
 MANG = {'char': 'c', 'char16_t': 'Ds', 'char32_t': 'Di'}
-import os as _os, re as _re
+import os as _os, re as _re, importlib.util as _ilu
+def _load(n):
+    sp = _ilu.spec_from_file_location('spec_' + n, _os.path.join(_os.path.dirname(_os.path.abspath(__file__)), n + '.py')); m = _ilu.module_from_spec(sp); sp.loader.exec_module(m); return m
 def _powp():
     # powerOfPositiveTen returns bool since the out-of-range fix; the mangled name (and the stub to use) follows the header actually under test
     try: txt = open(_os.path.join(_os.environ.get('VERIF_REPO', '/repo'), 'Include', 'Digit.hpp')).read()
@@ -70,5 +72,10 @@ def queries(tier):
                 d = {'L': L, 'CHAR': ch}
                 qs.append(Query('h_unescape/%s/L%d' % (ch, L), 'C05_json.cpp', 'h_unescape', d, bounds=b, stubs={}, cflags=['-Dprotected=public'], timeout=600,
                                 replay=('C05_lift.cpp', 'lift_string')))
+    # numerals far longer than N: the scanner's 19/20/21-digit windows (overflow look-ahead reads the unit AFTER the 20th digit) on exact-size buffers,
+    # alone and followed by . / e / E - the C09 window harnesses, whose bounds and pointer checks are this property's subject too
+    for q in _load('C09').queries(tier):
+        if (q.name.startswith('int/') or q.name.startswith('inttail/')) and not q.kf_only:
+            q.name = 'number-window/' + q.name; q.kf_excl = []; q.defs = dict(q.defs); q.defs['SAFETY_ONLY'] = 1; qs.append(q)
     return qs
 
